@@ -161,6 +161,9 @@ def build(reg):
         ensures=["result == B64(PBKDF2('sha256', UTF8(secret) if isinstance(secret, str) else secret, "
                  "UTF8(salt) if isinstance(salt, str) else salt, iterations, keylen))"],
         raises={"ValueError": "True", "UnicodeEncodeError": "True"}, **common)
+    # WAMP-SCRAM with PBKDF2 (RFC 5802: SaltedPassword := Hi(password, salt, i)) over the raw salt octets; on_challenge
+    # (not under contract: string formatting of the auth message) decodes the base64 salt of the CHALLENGE first --
+    # checked natively by the reference harness
     reg.contract(A + ":_hash_pbkdf2_secret", params={"password": "bytes", "salt": "bytes", "iterations": "int"},
                  returns="bytes", ensures=["result == PBKDF2('sha256', password, salt, iterations, 32)"],
                  raises={"ValueError": "True"}, **common)
@@ -207,5 +210,40 @@ def build(reg):
                                  "forall(j, 0, len(d2), d2[j] == d2_0[j])", "len(d1) == len(d1_0)"]}}, **common)
 
 
+import os as _os
+_REFERENCE_HARNESS = open(_os.path.join(_os.path.dirname(_os.path.abspath(__file__)), "c19_reference_harness.py.txt")).read()
+
+
+def replay(o):
+    """the real functions against independent reference verifiers written from the RFCs with the standard library
+    (hashlib.pbkdf2_hmac, hmac, base64, struct): WAMP-CRA key derivation and signatures for key lengths 1..128 (incl. the
+    base64 line-length boundaries 57 / 58), iteration counts and non-ASCII secrets; TOTP around step boundaries and far
+    future times with the +-1 window; WAMP-SCRAM (PBKDF2) client proof and server-signature check; util.xor"""
+    from pyvc import replaylib as R
+    out = R.run_py(_REFERENCE_HARNESS, timeout=300)
+    bad = out.get("bad") if isinstance(out, dict) else None
+    unit = o.get("unit") or o.get("name", "")
+    fams = {"derive_key": ("derive_key", "pbkdf2", "AuthWampCra"), "pbkdf2": ("derive_key", "pbkdf2"), "compute_wcs": ("compute_wcs", "AuthWampCra"),
+            "AuthWampCra": ("AuthWampCra", "derive_key", "compute_wcs"), "totp": ("compute_totp", "check_totp"), "xor": ("xor",),
+            "AuthScram": ("AuthScram",)}
+    want = None
+    for k, v in fams.items():
+        if k in unit:
+            want = v
+    hits = [b for b in (bad or []) if want is None or any(w in str(b.get("case", {}).get("fn", "")) for w in want)]
+    return {"reproduced": bool(hits), "cases": hits[:4], "observed": out if not hits else {"cases": out.get("cases")},
+            "detail": "the real auth functions against reference verifiers written from the RFCs (standard library only)"}
+
+
 def extra_checks(tier, seed):
+    # AuthScram.on_challenge (auth-message formatting, client proof) is not within the verifier's reach: the reference
+    # harness stands in for it on every run, as a *bounded* obligation (685 cases; never counted as proved)
+    from pyvc import replaylib as R
+    return _extra_checks(tier, seed) + [R.native_crosscheck(
+        "C19/bounded/reference-verifiers", _REFERENCE_HARNESS,
+        "685 cases: CRA key lengths 1..128 x iterations x secrets, TOTP step boundaries and windows, SCRAM-PBKDF2 "
+        "proof / server signature for 3 password / iteration / channel-binding combinations, xor")]
+
+
+def _extra_checks(tier, seed):
     return []
